@@ -291,7 +291,10 @@ func mutate(v *progen.Val) []*progen.Val {
 	var out []*progen.Val
 	wrong := func(orig *progen.Val) []*progen.Val {
 		cands := []*progen.Val{progen.Str("5"), progen.Int(3), progen.Num("1.0"), progen.Num("1.5"), progen.Bool(true),
-			progen.Arr(), progen.Obj(nil), progen.Arr(orig.Clone())}
+			progen.Arr(), progen.Obj(nil), progen.Arr(orig.Clone()),
+			// numbers at and beyond the int64 range, exponent forms, negative integral floats
+			progen.Num("9223372036854775808"), progen.Num("1e19"), progen.Num("-1e19"), progen.Num("18446744073709551616.0"),
+			progen.Num("1e2"), progen.Num("-3.0"), progen.Num("9223372036854775807")}
 		var res []*progen.Val
 		for _, c := range cands {
 			if c.JSON() != orig.JSON() {
@@ -460,6 +463,9 @@ func checkValue(c Case) []ev.Finding {
 		f1, fatal, ferr = ty.FilterJson(raw, lookup)
 	}()
 	phi := Phi(t, v)
+	if os.Getenv("VERIF_DEBUG") != "" {
+		fmt.Printf("debug: V=%v filter=%s fatal=%v err=%v phi=%s V(phi)=%v\n", verdictV, string(f1), fatal, ferr, phi.JSON(), V(t, phi))
+	}
 	if verdictV == accept {
 		if fatal || ferr != nil {
 			report("filter-fails-on-valid:"+kindOf(), fmt.Sprintf("filtering a valid value fails: fatal=%v err=%v", fatal, ferr))
@@ -480,6 +486,16 @@ func checkValue(c Case) []ev.Finding {
 					report("filtered-not-valid:"+kindOf(), fmt.Sprintf("the filtered value %s does not validate: err=%v alarms=%q", ev.Short(string(f1), 300), err, al.String()))
 				}
 			}
+		}
+	}
+	if !fatal && f1 != nil && V(t, phi) != accept {
+		// "for every declared type and every JSON value ... filtering changes
+		// nothing except dropping undeclared struct fields (and writing
+		// integral floats as integers for int)": when the filter does not
+		// refuse a value that is not of the declared shape, what it returns
+		// must still be the reference filtering of it
+		if want := phi.JSON(); !jsonEq(string(f1), want) {
+			report("filter-changes-value:"+kindOf(), fmt.Sprintf("a value not of the declared shape was filtered (not fatally) to %s, the only changes allowed give %s", ev.Short(string(f1), 300), ev.Short(want, 300)))
 		}
 	}
 	if !fatal && f1 != nil {
